@@ -613,6 +613,13 @@ pub fn comp_of(c: rbx_binary::CompressionType) -> Comp {
 
 pub fn body(f: &GForest, ctx: &mut CaseCtx) -> PropResult {
     classify_forest(f, ctx);
+    // one case in eight runs after failed saves on this thread (state surviving a failed call would corrupt this save)
+    {
+        let h = f.nodes.len() as u64 * 31 + f.nodes.iter().map(|n| n.props.len() as u64 * 7 + n.name.len() as u64).sum::<u64>();
+        if h % 8 == 3 && super::c07::provoke_failed_saves(h.wrapping_mul(0x9E37_79B9_7F4A_7C15)) > 0 {
+            ctx.label("after_failed_saves_on_this_thread");
+        }
+    }
     let built = forest::build(f, BuildMode::Builder, None);
     let roots = built.root_refs(f);
     let mut deferred: Option<Fail> = None;
@@ -726,6 +733,25 @@ pub fn run(ctx: &Ctx) -> PropertyReport {
                 .push(format!("wire types never produced: {missing:?}"));
         }
         rep.push(r);
+    }
+    if sub.runs("large") {
+        // files whose arrays are longer than any block an encoder could stage them through
+        use super::c01::LargeCase;
+        let mut cases = vec![
+            LargeCase::ManyInstances { n: 4_097 },
+            LargeCase::ManyInstances { n: 8_193 },
+            LargeCase::ManyInstances { n: 16_385 },
+            LargeCase::ManyInstances { n: 65_537 },
+            LargeCase::ManyClasses { n: 16_385 },
+        ];
+        for kind in ["BinaryString", "SharedString", "NumberSequence", "ColorSequence", "ContentId"] {
+            cases.push(LargeCase::LongValue { kind: kind.to_string(), n: 65_537 });
+        }
+        rep.push(ctx.run_list("large", cases, true, |c: &LargeCase, ctx: &mut CaseCtx| {
+            body(&super::c01::large_forest(c), ctx)?;
+            ctx.nontrivial();
+            Ok(())
+        }));
     }
     rep
 }
